@@ -137,9 +137,19 @@ def _finish(rig, t_healthy, why, tag):
     return why, obs
 
 
+async def _yield():
+    import asyncio
+
+    await asyncio.sleep(0)
+
+
 def _script_job(job):
-    start_name, phases = job
+    start_name, phases = job[:2]
+    yielding = len(job) > 2 and job[2]
     rig = Rig(Chooser())
+    if yielding:
+        # a client whose handle_event really yields to the loop (as any handler doing I/O does)
+        rig.man.on_event = lambda event, kw: _yield()
     rig.enter()
     t0 = rig.loop.time()
     t = t0 + STARTS[start_name]
@@ -161,8 +171,8 @@ def _script_job(job):
     why, obs = _finish(rig, rig.loop.time(), why, str(job))
     if why:
         key = f"C09|script|{why[0]}|start={start_name}|first={phases[0][0]}"
-        return (key, f"script start={start_name} phases={phases} then healthy: {why[1]}",
-                {"mode": "script", "start": start_name, "phases": [list(p) for p in phases]}), obs
+        return (key, f"script start={start_name} phases={phases}{' (yielding client handler)' if yielding else ''} then healthy: {why[1]}",
+                {"mode": "script", "start": start_name, "phases": [list(p) for p in phases], "yielding": yielding}), obs
     return None, obs
 
 
@@ -239,6 +249,7 @@ def run(ctx):
         triples = [((a, 30.0), (b, 130.0), (c, 30.0)) for a in PHASES for b in PHASES for c in PHASES if a != b and b != c]
         for s in triples:
             scripts.append(("steady", s))
+    scripts = [s + (False,) for s in scripts] + [s + (True,) for s in scripts]
     for (viol, obs) in core.pmap(ctx, _script_job, scripts, chunksize=1):
         evals += 1
         outcomes.add(obs)
@@ -289,7 +300,7 @@ def run(ctx):
 
 def replay(ctx, data):
     if data["mode"] == "script":
-        v, _ = _script_job((data["start"], tuple(tuple(p) for p in data["phases"])))
+        v, _ = _script_job((data["start"], tuple(tuple(p) for p in data["phases"]), data.get("yielding", False)))
         if v:
             ctx.violation(*v)
     else:
